@@ -48,7 +48,29 @@ Qed.
 (* without a buffer there is no post data *)
 Definition pinv2 (p : path) : Prop := pinv p /\ (pbuf p = false -> rpost p = []).
 
+(* a path with buffer and without SepBinary: the path of mpt_parse_config once a character was stored *)
+Notation bufok p := (pbuf p = true /\ pbin p = false).
+Lemma pbin_add p n c p' : path_add p n = (c, p') -> pbin p' = pbin p.
+Proof.
+  unfold path_add. destruct (negb (pbuf p)); [now inversion 1|].
+  destruct ((n <? 0) || (plen p <? n)); [now inversion 1|].
+  destruct (pbin p) eqn:B.
+  - destruct (255 <? n); inversion 1; subst; first [exact B|reflexivity].
+  - destruct (existsb _ _); inversion 1; subst; first [exact B|reflexivity].
+Qed.
+Lemma pbin_del p c p' : path_del p = (c, p') -> pbin p' = pbin p.
+Proof. unfold path_del. destruct (pelems p); inversion 1; reflexivity. Qed.
+Lemma pbin_invalidate p : pbin (path_invalidate p) = pbin p.
+Proof. unfold path_invalidate. destruct (negb (pbuf p)); reflexivity. Qed.
+Lemma pbin_addchar p v : pbin (path_addchar p v) = pbin p.
+Proof. unfold path_addchar. destruct (pbuf p), (rpost p), (pkeep p); reflexivity. Qed.
+Lemma pbin_delchar p : pbin (path_delchar p) = pbin p.
+Proof. unfold path_delchar. destruct (pbuf p), (rpost p); reflexivity. Qed.
+Lemma pbin_valid p : pbin (snd (path_valid p)) = pbin p.
+Proof. unfold path_valid. destruct (pbuf p), (rpost p); reflexivity. Qed.
+
 Lemma pinv2_init : pinv2 path_init. Proof. split; [reflexivity|auto]. Qed.
+Lemma pinv2_init_b bin : pinv2 (path_init_b bin). Proof. split; [reflexivity|auto]. Qed.
 Lemma pinv2_addchar p v : pinv2 p -> pinv2 (path_addchar p v).
 Proof.
   intros [H G]. split; [now apply pinv_addchar|].
@@ -113,14 +135,22 @@ Proof.
   destruct (pbuf p) eqn:B; cbn [negb] in E; [|inversion E; left; split; [reflexivity|auto]].
   destruct ((n <? 0) || (plen p <? n)) eqn:C; [inversion E; left; split; [reflexivity|auto]|].
   apply orb_false_iff in C. destruct C as [C1 C2]. apply Z.ltb_ge in C1, C2.
-  destruct (existsb _ _); inversion E; subst; [left; split; [reflexivity|auto]|].
-  right. split; [reflexivity|]. split; [lia|]. split; [reflexivity|].
-  split; [|cbn [pbuf]; discriminate].
-  unfold pinv. cbn [plen rpost].
-  change (match ppost p with [] => [] | _ :: l => skipn (Z.to_nat n) l end) with (skipn (S (Z.to_nat n)) (ppost p)).
-  rewrite rev_append_rev, app_nil_r. unfold len. rewrite rev_length, skipn_length.
   pose proof (len_ppost p) as LP. unfold len in LP, H.
-  destruct (Z.leb_spec (plen p) n); lia.
+  destruct (pbin p).
+  - destruct (255 <? n); inversion E; subst; [left; split; [reflexivity|auto]|].
+    right. split; [reflexivity|]. split; [lia|]. split; [reflexivity|].
+    split; [|cbn [pbuf]; discriminate].
+    unfold pinv. cbn [plen rpost].
+    change (match ppost p with _ :: _ :: l => skipn (Z.to_nat n) l | _ => [] end) with (skipn (S (S (Z.to_nat n))) (ppost p)).
+    rewrite rev_append_rev, app_nil_r. unfold len. rewrite rev_length, skipn_length.
+    destruct (Z.leb_spec (plen p) (n + 1)); lia.
+  - destruct (existsb _ _); inversion E; subst; [left; split; [reflexivity|auto]|].
+    right. split; [reflexivity|]. split; [lia|]. split; [reflexivity|].
+    split; [|cbn [pbuf]; discriminate].
+    unfold pinv. cbn [plen rpost].
+    change (match ppost p with [] => [] | _ :: l => skipn (Z.to_nat n) l end) with (skipn (S (Z.to_nat n)) (ppost p)).
+    rewrite rev_append_rev, app_nil_r. unfold len. rewrite rev_length, skipn_length.
+    destruct (Z.leb_spec (plen p) n); lia.
 Qed.
 
 Lemma path_del_spec p c p' :
@@ -181,6 +211,7 @@ Create HintDb pst.
   valid_with_curr valid_with_valid valid_set_valid pcurr_tick pcurr_tick_raw pcurr_tick_eof pcurr_addch
   pcurr_with_path pcurr_with_curr pcurr_with_valid pcurr_set_valid
   pelems_addchar pelems_delchar pelems_valid pelems_invalidate plen_valid
+  pbin_addchar pbin_delchar pbin_valid pbin_invalidate
   len_nil len_cons : pst.
 
 (* the transformers are used through these lemmas only *)
@@ -222,6 +253,8 @@ Qed.
 Lemma sinv_pinv2 s : sinv s -> pinv2 (pth s). Proof. now intros [H _]. Qed.
 Lemma sinv_init : sinv pst_init.
 Proof. split; [apply pinv2_init|cbn; lia]. Qed.
+Lemma sinv_init_b bin : sinv (pst_init_b bin).
+Proof. split; [apply pinv2_init_b|cbn; lia]. Qed.
 
 (* unconditional part of mpt_path_add *)
 Lemma path_add_elems p n c p' :
@@ -231,8 +264,10 @@ Proof.
   unfold path_add. intros E.
   destruct (negb (pbuf p)); [inversion E; left; split; [reflexivity|auto]|].
   destruct ((n <? 0) || (plen p <? n)); [inversion E; left; split; [reflexivity|auto]|].
-  destruct (existsb _ _); inversion E; subst; [left; split; [reflexivity|auto]|].
-  right. split; reflexivity.
+  destruct (pbin p).
+  - destruct (255 <? n); inversion E; subst; [left; split; [reflexivity|auto]|]. right. split; reflexivity.
+  - destruct (existsb _ _); inversion E; subst; [left; split; [reflexivity|auto]|].
+    right. split; reflexivity.
 Qed.
 Lemma path_add_pinv p n c p' : pinv2 p -> path_add p n = (c, p') -> pinv2 p'.
 Proof.
